@@ -3278,6 +3278,13 @@ yin_parse_element_generic(struct lysp_yin_ctx *ctx, enum ly_stmt parent_stmt, st
 
     (*element)->kw = yin_match_keyword(ctx, ctx->xmlctx->name, ctx->xmlctx->name_len, ctx->xmlctx->prefix,
             ctx->xmlctx->prefix_len, parent_stmt);
+    if ((*element)->kw == LY_STMT_ARG_VALUE) {
+        /* the argument element of error-message was read together with its parent, this is a value statement */
+        (*element)->kw = LY_STMT_VALUE;
+    } else if ((*element)->kw == LY_STMT_ARG_TEXT) {
+        /* an argument element is valid only as the first sub-element of its statement, where it was already read */
+        (*element)->kw = LY_STMT_NONE;
+    }
 
     last = (*element)->child;
     if ((*element)->kw == LY_STMT_NONE) {
